@@ -1,5 +1,5 @@
 """C01 - every expression evaluates to its mathematical value on both evaluation paths."""
-CONTRACT_MODULES = ['c01_values']
+CONTRACT_MODULES = ['c01_values', 'c01_signatures']
 LEVEL = 'other'
 TRUSTED = ['pyvc (VC generator, Python semantics of the stated subset)', 'z3 5.1.0 / cvc5 1.0.3',
            'ENGINE-SPEC: the compiled engine evaluates the decoded tree to its mathematical value (assumed; sampled by the bounded conformance harness)']
@@ -11,3 +11,19 @@ LEVEL_TEXT = ('Deductive proof for the Python evaluator and the Python-side plum
 LEVEL_NOTE = 'Trusted: pyvc, z3/cvc5, A-REAL, ENGINE-SPEC (cythonbiogeme evaluates SEM), LIBSPEC for numpy.exp/log/sin/cos (uninterpreted).'
 TECHNIQUE = 'contract-based deductive verification (AST -> VCs -> z3/cvc5) + bounded engine-conformance stand-in'
 DESIGN_REF = 'DESIGN.md section 3 / C01'
+
+REPLAYS = {'*': """
+import sys, re
+sys.path.insert(0, '/verif/bounded')
+import c01_replay
+m_ = re.search(r'([A-Za-z]+)\\.get_(value|signature)', payload['obligation'])
+bad = c01_replay.check_class(m_.group(1)) if m_ else None
+violated = bool(bad)
+detail = str((bad or [])[:2])
+"""}
+
+
+def extra(tier, seed):
+    from pyvc.bounded import run_native
+    return [run_native('C01:bounded:per-class-value-and-signature', 'c01_replay.py', [],
+                       bound='23 fixed-arity node classes x 6 operand pairs: Python value against the defining equation, signature line positions against ENGINE-SPEC')]
